@@ -465,10 +465,10 @@ Proof.
     rewrite find_map_id by (intro; apply play_step_id). unfold find_sub in Hfind. rewrite Hfind. cbn [option_map].
     rewrite (play_step_other _ _ c Hkrt).
     repeat split; try assumption. unfold vout, pending_for. cbn [g_merge]. now rewrite app_nil_r.
-  - exists c. unfold feed_rtp, find_sub. cbn [g_subs].
+  - exists c. unfold feed_rtp, feed_rtp_gen, find_sub. cbn [g_subs].
     assert (Hf : find (idp id) match rtp_pt raw with
                                | Some pt => map (rtsp_step (cf_rtsp_wait cf)
-                                   match g_sdp s with None => false | Some _ => rtp_is_boundary (g_vcodec s) raw end
+                                   match g_sdp s with None => false | Some _ => rtp_is_boundary true (g_vcodec s) pt raw end
                                    (rtp_pt_written pt) (LRtp (g_next_rtp s))) (g_subs s)
                                | None => g_subs s end = Some c).
     { destruct (rtp_pt raw); [|exact Hfind].
@@ -633,7 +633,7 @@ Proof.
   - unfold same_but_subs. cbn. rewrite <- H3, <- H13, <- H17. repeat split; try assumption; try congruence. now apply Permutation_map.
   - unfold same_but_subs. cbn. rewrite <- Hs2. repeat split; try assumption; try congruence. now apply Permutation_map.
   - unfold same_but_subs, set_subs. cbn. rewrite <- H10. repeat split; try assumption; try congruence. now apply Permutation_map.
-  - unfold feed_rtp, same_but_subs. cbn. rewrite <- H14, <- H15, <- Hs1.
+  - unfold feed_rtp, feed_rtp_gen, same_but_subs. cbn. rewrite <- H14, <- H15, <- Hs1.
     repeat split; try assumption; try congruence.
     destruct (rtp_pt raw); [now apply Permutation_map|assumption].
   - unfold same_but_subs. cbn. rewrite <- H13, <- H16. repeat split; try assumption; try congruence.
